@@ -43,7 +43,7 @@ type c03Round struct {
 	// consumer
 	Style   string `json:"style"`    // "nextpackage" | "until"
 	AbortAt int    `json:"abort_at"` // callback invocation index at which the policy applies (-1 never)
-	Outcome string `json:"outcome"`  // "true" | "eof" | "err" | "err-wrapping-eof"
+	Outcome string `json:"outcome"`  // "true" | "eof" | "err" | "err-wrapping-eof" | "true+err"
 	// LateEOM: the response ends with a real final DONE in a packet without
 	// EOM; the header-only EOM packet only arrives after the consumer has
 	// read the DONE and sent its next request.
@@ -303,6 +303,11 @@ func c03Run(c *Ctx, cs c03Case) {
 							case "err-wrapping-eof":
 								aborted = true
 								return false, errC03WrapsEOF
+							case "true+err":
+								// "stop" and an error at once, as in the
+								// example of the documentation
+								aborted = true
+								return true, errC03Callback
 							}
 						}
 						return kd == "done0", nil
@@ -701,7 +706,7 @@ func c03GenRound(rnd *rt.Rand, shapes []c03Shape, si int) c03Round {
 	} else {
 		rd.Style = "until"
 		rd.AbortAt = rnd.Range(-1, len(exp)-1)
-		rd.Outcome = []string{"true", "eof", "err", "err-wrapping-eof"}[rnd.Intn(4)]
+		rd.Outcome = []string{"true", "eof", "err", "err-wrapping-eof", "true+err"}[rnd.Intn(5)]
 	}
 	return rd
 }
@@ -742,7 +747,7 @@ func runC03(c *Ctx) {
 	}
 	// every abort point x outcome for every shape (second round follows)
 	for a := range shapes {
-		for _, oc := range []string{"true", "eof", "err", "err-wrapping-eof"} {
+		for _, oc := range []string{"true", "eof", "err", "err-wrapping-eof", "true+err"} {
 			for at := 0; at < 8; at++ {
 				rnd := rt.NewRand(c.Seed, fmt.Sprintf("c03/abort/%d/%s/%d", a, oc, at))
 				rd := c03GenRound(rnd, shapes, a)
